@@ -82,6 +82,58 @@ func genShapes(repo string) {
 	}
 	sort.Strings(kws)
 	b.WriteString("/-- the keyword map of the annotation lexer: \"word=ATokenKw…\", sorted -/\n")
-	b.WriteString("def annotKeywords : List String := " + leanStrList(kws) + "\n\nend LuaHelper.Gen\n")
+	b.WriteString("def annotKeywords : List String := " + leanStrList(kws) + "\n\n")
+	// module resolution: order of attempts in CheckReferFile, score constants of calcMatchStrScore
+	var attempts, lits, consts []string
+	rf, err := parser.ParseFile(fset, filepath.Join(repo, "langserver/check/results/file_result.go"), nil, 0)
+	if err != nil {
+		fail("parse file_result.go: %v", err)
+	}
+	for _, d := range rf.Decls {
+		fd, ok := d.(*ast.FuncDecl)
+		if !ok || fd.Name.Name != "CheckReferFile" {
+			continue
+		}
+		ast.Inspect(fd.Body, func(n ast.Node) bool {
+			switch x := n.(type) {
+			case *ast.CallExpr:
+				if se, ok := x.Fun.(*ast.SelectorExpr); ok {
+					switch se.Sel.Name {
+					case "MatchCompleteReferFile", "GetBestMatchReferFile", "MatchAllDirReferFile", "InsertError":
+						attempts = append(attempts, se.Sel.Name)
+					}
+				}
+			case *ast.BasicLit:
+				if strings.HasPrefix(x.Value, "\"") && (strings.Contains(x.Value, ".") || strings.Contains(x.Value, "/")) && !strings.Contains(x.Value, "%") {
+					lits = append(lits, strings.Trim(x.Value, "\""))
+				}
+			}
+			return true
+		})
+	}
+	df, err := parser.ParseFile(fset, filepath.Join(repo, "langserver/check/common/dir_manager.go"), nil, 0)
+	if err != nil {
+		fail("parse dir_manager.go: %v", err)
+	}
+	for _, d := range df.Decls {
+		fd, ok := d.(*ast.FuncDecl)
+		if !ok || fd.Name.Name != "calcMatchStrScore" {
+			continue
+		}
+		ast.Inspect(fd.Body, func(n ast.Node) bool {
+			if x, ok := n.(*ast.BasicLit); ok && !strings.HasPrefix(x.Value, "\"") {
+				consts = append(consts, x.Value)
+			}
+			return true
+		})
+	}
+	if len(attempts) == 0 || len(consts) == 0 {
+		fail("CheckReferFile / calcMatchStrScore not found")
+	}
+	b.WriteString("/-- CheckReferFile: the look-up calls in source order, and the path literals it appends -/\n")
+	b.WriteString("def referAttempts : List String := " + leanStrList(attempts) + "\n")
+	b.WriteString("def referLiterals : List String := " + leanStrList(lits) + "\n\n")
+	b.WriteString("/-- calcMatchStrScore: the numeric literals in source order -/\n")
+	b.WriteString("def scoreConsts : List String := " + leanStrList(consts) + "\n\nend LuaHelper.Gen\n")
 	write("Shapes.lean", b.String())
 }
